@@ -67,6 +67,54 @@ def cases(chk: common.Check) -> list[dict]:
                 cs.append({'func': 'sleep', 'args': [0.3], 'logging': lg, 'signal': {'kind': kind, 'at': at}, 'classes': allowed})
     cs.append({'func': 'sleep_catch', 'args': [0.3], 'logging': False, 'signal': {'kind': 'interrupt', 'at': 0.15},
                'classes': ['returned 1', 'signal 2', 'hardExit 1']})
+    cs += repeated_request_cases(chk)
+    return cs
+
+
+def repeated_request_cases(chk: common.Check) -> list[dict]:
+    """Repeated terminate / kill requests, and requests after the child is gone: the caller knows that the process has exited only from the
+    await returning, so until then it may go on asking (a client repeating "terminate" because the run is not yet reported as finished).
+    Another task issues a request at every iteration of the event loop (or every few ms) from some instant until awaiting the handle has
+    yielded -- hence also in the window in which the child has already been reaped.  None may raise; the outcome is that of the first
+    effective request (or the normal one when the child ignores SIGTERM / had already returned).  interrupt() takes part after a first, deadly request."""
+    cs: list[dict] = []
+    quick = chk.tier == 'quick'
+
+    def add(func, args, lg, init, hammer, classes, exitcode=None):
+        c = {'func': func, 'args': args, 'logging': lg, 'hammer': hammer, 'classes': classes, 'timeout': 30}
+        if init:
+            c['initializer'] = True
+        if exitcode is not None:
+            c['exitcode'] = exitcode
+        cs.append(c)
+    # (1) a child that would run for 30 s: the first request ends it, the rest arrive while it dies, is reaped, and the handle winds up
+    for kinds, signo in ((['kill'], 9), (['terminate'], 15), (['kill', 'terminate'], 9)):
+        for lg, init in ((False, False), (True, True)) if quick else ((False, False), (True, False), (False, True), (True, True)):
+            for at in (0.3,) if quick else (0.0, 0.3, 1.0):
+                add('sleep', [30], lg, init, {'kinds': kinds, 'at': at, 'every': 0}, [f'signal {signo}'], -signo)
+    # interrupt() after the first, deadly request: it reaches a dying or already reaped child and must be as harmless as the others
+    # (F-H2, fixed: send_signal used a bare os.kill and raised ProcessLookupError once the child had been reaped)
+    for first, signo in (('kill', 9), ('terminate', 15)):
+        for lg in (False, True):
+            add('sleep', [30], lg, lg, {'kinds': [first, 'interrupt'], 'at': 0.3, 'every': 0}, [f'signal {signo}'], -signo)
+            add('sleep', [30], lg, False, {'kinds': [first, 'interrupt', 'interrupt'], 'at': 0.3, 'every': 0.002}, [f'signal {signo}'], -signo)
+    for kinds in (['terminate', 'kill'], ['kill', 'kill', 'terminate']):
+        # which of the two signals ends the child depends on how fast it dies from the first
+        add('sleep', [30], True, False, {'kinds': kinds, 'at': 0.3, 'every': 0}, ['signal 9', 'signal 15'])
+    for every in (0.002,) if quick else (0.001, 0.002, 0.005, 0.02):
+        for lg in (False, True):
+            add('sleep', [30], lg, False, {'kinds': ['kill'], 'at': 0.3, 'every': every}, ['signal 9'], -9)
+            add('sleep', [30], lg, lg, {'kinds': ['terminate'], 'at': 0.3, 'every': every}, ['signal 15'], -15)
+    # (2) normal completion under a hail of requests: the child ignores SIGTERM (the requests start once it has said so) and returns
+    for lg, init in ((False, False), (True, False), (True, True)):
+        for every in (0, 0.002):
+            add('ignore_term_return', ['ready.flag', 0.5], lg, init, {'kinds': ['terminate'], 'flag': 'ready.flag', 'every': every}, ['returned 1'], 0)
+    # (3) requests that start around the instant the function returns (the child says when it is about to): the value got through or not
+    for kinds, signo in ((['kill'], 9), (['terminate'], 15), (['terminate', 'kill'], None)):
+        for lg in (False, True):
+            for t in (0.0, 0.05) if quick else (0.0, 0.01, 0.02, 0.05, 0.1):
+                add('flag_then_return', ['ready.flag', t], lg, False, {'kinds': kinds, 'flag': 'ready.flag', 'every': 0},
+                    ['returned 1'] + ([f'signal {signo}'] if signo else ['signal 9', 'signal 15']))
     return cs
 
 
@@ -114,6 +162,29 @@ def classify(res: dict) -> str:
     return 'unknown'
 
 
+def hammer_messages(spec: dict, res: dict) -> list[str]:
+    """oracle of the repeated-request cases: no terminate / kill request issued before awaiting the handle yielded may raise"""
+    ham = spec.get('hammer')
+    if not ham:
+        return []
+    msgs = []
+    he = res.get('hammer_error')
+    if he:
+        seen = he.get('reaped_exit_code_seen_before')
+        msgs.append(f"{he['request']}() raised {he['error']} -- request no. {he['nth']} of a task repeating {'/'.join(ham['kinds'])} "
+                    f"{'at every event-loop iteration' if not ham.get('every') else 'every %s s' % ham['every']} "
+                    f"{'from %s s after the start' % ham['at'] if 'at' in ham else 'from the moment the child said it was ready'}, "
+                    f"{he['after_s']} s after the start, while awaiting the handle had not yet yielded"
+                    + (f' (the child had already been reaped, exit code {seen})' if seen is not None else ''))
+    if res.get('hammer_task_error'):
+        msgs.append(f"scenario failed: the requesting task did not finish: {res['hammer_task_error']}")
+    if ham.get('flag') and not res.get('hammer_flag_seen') and not he:
+        msgs.append(f"scenario failed: the child never reported that it had started {spec['func']} (no requests were issued)")
+    elif 'at' in ham and not he and not res.get('hammer_requests'):
+        msgs.append('scenario failed: no request was issued before awaiting the handle yielded')
+    return msgs
+
+
 def run(chk: common.Check) -> None:
     chk.cov.rule = ('run_in_process under the spawn context, each case in its own sub-process with a wall-clock bound: outcomes {return, unpicklable '
                     'return, raise, dynamic exception class, sys.exit, os._exit(0/1/3), self-SIGKILL} × {log collection on/off} (+ initializer), a '
@@ -133,6 +204,12 @@ def run(chk: common.Check) -> None:
         chk.cov.count('func', spec['func'])
         if spec.get('slow_handler'):
             chk.cov.count('kinds', 'slow-log-handler' if spec['slow_handler']['delay'] else 'fast-log-handler')
+        if spec.get('hammer'):
+            chk.cov.count('kinds', 'repeated-requests')
+            if res.get('hammer_requests_after_reaped'):
+                chk.cov.count('kinds', 'requests-after-child-reaped')
+            if not res.get('hammer_requests') and not res.get('hammer_error'):
+                chk.cov.count('kinds', 'repeated-requests-none-issued-in-time')
         msgs = []
         if not res.get('awaited'):
             msgs.append(f"awaiting the handle did not yield: {res.get('raised_out')}")
@@ -160,6 +237,7 @@ def run(chk: common.Check) -> None:
                 msgs.append('creation time is after exit time')
             if res.get('signal_error'):
                 msgs.append(f"a signal request raised: {res['signal_error']}")
+            msgs += hammer_messages(spec, res)
             if spec.get('many_awaiters'):
                 if res.get('awaiter_errors'):
                     msgs.append(f"{res['awaiters']} tasks awaited the handle, one started at every event-loop iteration: awaiting raised {res['awaiter_errors'][0]}")
